@@ -693,6 +693,104 @@ def run_memory(ctx):
                 ctx.violation('element(arr)/asarray', '%s;%s' % (sname, order), 'raises:' + type(e).__name__, message=str(e)[:200])
 
 
+class AmbientContract(object):
+    """Record-only contract on ``NumpyTensor.__array_ufunc__`` and ``DiscretizedSpaceElement.__array_ufunc__`` (W-ambient):
+    every dispatch the repository's own suite makes - ufunc call, reduce, accumulate, outer, at, reduceat, with or without
+    ``out`` - against the same ufunc method on the underlying arrays (copies taken before the call)."""
+
+    def __init__(self, rec):
+        self.rec = rec
+        self.busy = False
+
+    def install(self):
+        from odl.space.npy_tensors import NumpyTensor
+        from odl.discr.discr_space import DiscretizedSpaceElement
+        for cls in (NumpyTensor, DiscretizedSpaceElement):
+            self._wrap(cls)
+
+    def _wrap(self, cls):
+        me = self
+        orig = vars(cls)['__array_ufunc__']
+
+        def unwrap(v):
+            if hasattr(v, 'asarray') and hasattr(v, 'space'):
+                return np.array(v.asarray(), copy=True)
+            if isinstance(v, np.ndarray):
+                return v.copy()
+            return v
+
+        def __array_ufunc__(self, ufunc, method, *inputs, **kwargs):
+            if me.busy:
+                return orig(self, ufunc, method, *inputs, **kwargs)
+            try:
+                snap = [unwrap(v) for v in inputs]
+            except Exception:
+                snap = None
+            res = orig(self, ufunc, method, *inputs, **kwargs)
+            if snap is None or res is NotImplemented:
+                return res
+            me.busy = True
+            try:
+                me.check(type(self).__name__, ufunc, method, inputs, snap, kwargs, res)
+            except Exception as e:
+                me.rec.note_add('ambient_contract_errors:' + type(e).__name__)
+            finally:
+                me.busy = False
+            return res
+        setattr(cls, '__array_ufunc__', __array_ufunc__)
+
+    def check(self, cname, ufunc, method, inputs, snap, kwargs, res):
+        self.rec.ev('ambient-ufunc')
+        kw = {k: v for k, v in kwargs.items() if k != 'out'}
+        has_out = kwargs.get('out') is not None and any(o is not None for o in (kwargs.get('out') if isinstance(kwargs.get('out'), tuple) else (kwargs.get('out'),)))
+        cfg = 'ambient:%s;%s%s' % (cname, method, ';out' if has_out else '')
+        with np.errstate(all='ignore'):
+            if method == 'at':
+                ref0 = snap[0].copy()
+                ufunc.at(ref0, *snap[1:])
+                got = np.asarray(inputs[0])
+                if not np.array_equal(got, ref0, equal_nan=True) if got.dtype.kind in 'fc' else not np.array_equal(got, ref0):
+                    self.rec.violation('at', cfg, 'value', ufunc=ufunc.__name__)
+                return
+            try:
+                ref = getattr(ufunc, method)(*snap, **kw)
+            except Exception:
+                self.rec.note_add('ambient_reference_raised')
+                return
+        refs = ref if isinstance(ref, tuple) else (ref,)
+        gots = res if isinstance(res, tuple) else (res,)
+        if len(refs) != len(gots):
+            self.rec.violation(method, cfg, 'number-of-results', ufunc=ufunc.__name__)
+            return
+        for g, r in zip(gots, refs):
+            ga, ra = np.asarray(g), np.asarray(r)
+            if ga.shape != ra.shape:
+                self.rec.violation(method, cfg, 'shape', ufunc=ufunc.__name__, got=ga.shape, ref=ra.shape)
+            elif not has_out and ga.dtype != ra.dtype:
+                self.rec.violation(method, cfg, 'dtype', ufunc=ufunc.__name__, got=str(ga.dtype), ref=str(ra.dtype))
+            else:
+                rr = ra.astype(ga.dtype) if ga.dtype != ra.dtype else ra
+                if ga.dtype.kind in 'fc':
+                    tol = 1e-5 if ga.dtype.itemsize // (2 if ga.dtype.kind == 'c' else 1) <= 4 else 1e-12
+                    ok = np.allclose(ga, rr, rtol=tol, atol=0, equal_nan=True)
+                else:
+                    ok = np.array_equal(ga, rr)
+                if not ok:
+                    self.rec.violation(method, cfg, 'value', ufunc=ufunc.__name__)
+
+
+def run_ambient(ctx):
+    from .c03 import ambient_suite
+    data = ambient_suite(ctx, {'VF_AMBIENT_UFUNC': '1', 'VF_AMBIENT_NO_CALLMON': '1'}, 'c17')
+    if not data:
+        return
+    st = data['stats']
+    ctx.note('ambient', {k: v for k, v in st.items() if k.startswith('ambient')})
+    ctx.ev('ambient-contract', int(st.get('ambient-ufunc', 0)))
+    for v in data['violations']:
+        ctx.violation(v['component'], v['config'], v['kind'], where='repository test-suite (W-ambient)', count=v['count'], example=v.get('example'))
+
+
 def run(ctx):
     ctx.note('rule', 'one case = (method/operand/out variant, space kind, ufunc); all %d element-wise NumPy ufuncs x 18 spaces '
                      'are enumerated, plus the lattice {call, reduce, accumulate} x out {array, element} x out dtype x dtype= keyword; the seed '
@@ -705,6 +803,8 @@ def run(ctx):
         run_pspace(ctx)
         run_pspace_reductions(ctx)
         run_memory(ctx)
+        if ctx.thorough and ctx.round == 0:
+            run_ambient(ctx)
     ctx.ev('memory', 0 if ctx.shard else 0)
     if ctx.shard != 0:
         ctx.monitors.pop('memory', None)
